@@ -77,6 +77,10 @@ type concCase struct {
 	Sched   []uint8 `json:"sched,omitempty"`
 	Prio    []uint8 `json:"prio,omitempty"`
 	Changes []int   `json:"changes,omitempty"`
+	// Dangling: ids that start with an index entry whose output file is gone - the state a Trim leaves behind when
+	// lookups kept the entry fresh and nobody used the output (not damage). A lookup of such an id misses; a Put of it
+	// running next to that lookup must still leave it readable.
+	Dangling []int `json:"dangling,omitempty"`
 }
 
 func (c concCase) strategy() sched.Strategy {
@@ -133,6 +137,17 @@ func run(c concCase, strat sched.Strategy, trace bool) outcome {
 		return outcome{fail: vt.Failf("HARNESS-dir", "%v", err)}
 	}
 	cachekit.Clean(d, hot)
+	if len(c.Dangling) > 0 {
+		if rc, err := cache.Open(d); err == nil {
+			for _, id := range c.Dangling {
+				if id >= 0 && id < nIDs {
+					pl := payload(id, 0)
+					rc.PutBytes(cache.ActionID(cachekit.ID(id)), pl)
+					os.Remove(cachekit.DataPath(d, cachekit.Sum(pl)))
+				}
+			}
+		}
+	}
 	var bad *vt.Fail
 	setBad := func(f *vt.Fail) {
 		if bad == nil {
@@ -339,6 +354,9 @@ func genConc(t *rapid.T) concCase {
 			}
 		}
 	}
+	if rapid.IntRange(0, 4).Draw(t, "dangling") == 3 {
+		c.Dangling = []int{hotID}
+	}
 	if rapid.IntRange(0, 3).Draw(t, "mode") == 0 {
 		c.Mode = "pct"
 		c.Prio = rapid.SliceOfN(rapid.Byte(), 1, 6).Draw(t, "prio")
@@ -380,12 +398,13 @@ func TestSchedules(t *testing.T) {
 type exCase struct {
 	Actors     [][]aop `json:"actors"`
 	MaxPreempt int     `json:"max_preempt"`
+	Dangling   []int   `json:"dangling,omitempty"`
 }
 
 var exRuns, exInter int64
 
 func checkExhaustive(c exCase) *vt.Fail {
-	cc := concCase{Actors: c.Actors}
+	cc := concCase{Actors: c.Actors, Dangling: c.Dangling}
 	if !valid(cc) {
 		return nil
 	}
@@ -433,11 +452,16 @@ func TestExhaustive(t *testing.T) {
 		{{put(2, 0)}, {put(2, 2), gb(2)}},
 		{{put(2, 1), gf(2)}, {put(2, 0), gb(2)}},
 	}
+	// the last two start from an entry whose output file was trimmed away
+	configs = append(configs, [][]aop{{put(0, 0)}, {gb(0)}}, [][]aop{{put(0, 0)}, {gf(0), gb(0)}})
 	for i, cfg := range configs {
 		if i%vt.NShards() != vt.Shard() {
 			continue
 		}
 		c := exCase{Actors: cfg, MaxPreempt: maxP}
+		if i >= len(configs)-2 {
+			c.Dangling = []int{0}
+		}
 		before := exRuns
 		ok := vt.CheckOne(rec, "exhaustive", c, checkExhaustive)
 		rec.Sample("exhaustive", 2, map[string]any{"case": c, "executions": exRuns - before})
